@@ -445,7 +445,7 @@ E('polylog', 'P W', key='polylog_r', fam='D', tol=8, cost=2, maxprec=300)
 E('lerchphi', 'W m P', fam='D', tol=8, cost=3, maxprec=200)
 E('clsin', 'm x', fam='D', tol=8, cost=2)
 E('clcos', 'm x', fam='D', tol=8, cost=2)
-E('stieltjes', 'i:0:6', fam='D', tol=10, cost=3, maxprec=120)
+E('stieltjes', 'i:0:6', fam='D', tol=10, cost=2, maxprec=120)
 E('primezeta', 'g', fam='D', tol=8, cost=3, maxprec=150)
 E('siegelz', 'T', fam='D', tol=8, cost=2, maxprec=300)
 E('siegeltheta', 'T', fam='D', tol=8)
